@@ -327,6 +327,8 @@ type httpCfg struct {
 	Engine string
 }
 
+var httpSeq int
+
 var httpListings = [][]string{{"alpha", "Beta"}, {"alpha", "gamma"}, {"delta"}}
 var httpSpellings = []string{"alpha", "ALPHA", "Beta", "beta", "gamma", "delta", "alpha:latest", "nope"}
 var httpHealth = []int{0b111, 0b011, 0b100, 0b101, 0b000}
@@ -452,7 +454,10 @@ func runHTTPOnce(c *vlib.Cases, hc httpCfg, mu *sync.Mutex, last bool) bool {
 					b.Taken()
 				}
 				body, _ := json.Marshal(map[string]any{"model": sp, "messages": []map[string]string{{"role": "user", "content": "hi"}}})
-				r := stack.Do(s.Addr, stack.Request("POST", path, s.Addr, [][2]string{{"Content-Type", "application/json"}}, body, false), 5*time.Second)
+				// every other request is sent with Transfer-Encoding: chunked (no declared length): the model named in
+				// the body must be routed the same way however the body is framed
+				httpSeq++
+				r := stack.Do(s.Addr, stack.Request("POST", path, s.Addr, [][2]string{{"Content-Type", "application/json"}}, body, httpSeq%2 == 0), 5*time.Second)
 				backend := -1
 				nb := 0
 				for i, b := range bes {
